@@ -469,8 +469,11 @@ def run(tier, seed):
 def replay(path):
     data = json.load(open(path))
     impl = core.build_impl()
-    c = data['case']
-    rs = drive(impl, [c], new_root('replay'))
+    c = dict(data['case'])
+    root = new_root('replay')
+    if not c.get('base') or os.path.exists(c['base']):
+        c['base'] = os.path.join(root, 'c0')     # a recorded violation keeps its directory (absolute spellings)
+    rs = drive(impl, [c], root)
     fails = evaluate_python([c], rs)
     print(json.dumps(dict(case=c, impl=rs[0], holds=not fails, fails=[[w, f] for _i, w, f in fails]), indent=1)[:6000])
     return 0 if not fails else 1
